@@ -146,9 +146,17 @@ def scenario_for(seed, index, tier, _random_only=False):
                   'disc': {'by': rng.choice(['coord', 0]),
                            'immediate': rng.random() < 0.3}}
     gran = 'line' if rng.random() < 0.85 else 'instr'
+    slow_out = None
+    if not big and rng.random() < 0.1:
+        # a slow early outgoing listener: whoever writes one of these
+        # packets keeps the write lock for that long (virtual time)
+        all_tags = [t for ops in threads for _k, t, _s in ops]
+        slow_out = {'tags': sorted(rng.sample(all_tags, min(
+            len(all_tags), rng.choice([1, 2])))),
+            'us': rng.choice([1000, 200000, 8000000, 40000000])}
     return {
         'proto': proto, 'mode': mode, 'threshold': threshold,
-        'threads': threads, 'disc': disc,
+        'threads': threads, 'disc': disc, 'slow_out': slow_out,
         'second_party': second,
         'server': {'conns': [{'login': login, 'play': play}] *
                    (2 if second else 1)},
@@ -367,6 +375,16 @@ def execute(scenario, tape):
                               handle_exception=lambda e, i: errors.append(e))
             st['conn'] = conn
             nthreads = len(psc['threads'])
+            so = scenario.get('slow_out') if pi == 0 else None
+            if so:
+                def slow(p):
+                    d = bytes(getattr(p, 'data', b'') or b'')
+                    if len(d) >= 4 and \
+                            struct.unpack('>I', d[:4])[0] in so['tags']:
+                        w.sleep(so['us'])
+                conn.register_packet_listener(
+                    slow, serverbound.play.PluginMessagePacket, early=True,
+                    outgoing=True)
 
             def do_disconnect():
                 imm = psc['disc']['immediate']
